@@ -17,6 +17,17 @@ def run(ctx):
     cfg = ("SPECIFICATION Spec\nCONSTANTS\n  MaxCurves = 2\n  MaxCap = 2\n  RowSet = {1}\n  UseDeclaredWhenWrapped = TRUE\n"
            "INVARIANT OrdersAgree\nCHECK_DEADLOCK FALSE\n")
     ctx.model_check("WriteLayout", cfg, label="WriteLayout: OrdersAgree", workers=2)
+    # the design-level theorem: every line the writer algorithm lays out is read back by the reader algorithm and by the grammar
+    wl = ("SPECIFICATION Spec\nCONSTANTS\n  NumericPadFix = %s\n  DottedUnitFix = %s\nINVARIANT ReadsBack\nINVARIANT ReadsBackByGrammar\n"
+          "CHECK_DEADLOCK FALSE\n")
+    ctx.model_check("WriteLineCheck", wl % ("TRUE", "TRUE"), label="WriteLineCheck: ReadsBack, ReadsBackByGrammar (208 849 sections)",
+                    workers=8, timeout=1800)
+    r1 = tlc.run("WriteLineCheck", wl % ("FALSE", "TRUE"), workers=2, allow_violation=True, timeout=900)
+    r2 = tlc.run("WriteLineCheck", wl % ("TRUE", "FALSE"), workers=2, allow_violation=True, timeout=900)
+    ctx.extra["theorem_sensitive_to_numeric_unit_padding_D32"] = r1.violation is not None
+    ctx.extra["theorem_sensitive_to_dotted_unit_delimiter_D21"] = r2.violation is not None
+    if r1.violation is None or r2.violation is None:
+        raise tlc.MachineryError("WriteLineCheck should fail without the D32 / D21 repairs")
     r = tlc.run("WriteLayout", cfg.replace("INVARIANT OrdersAgree", "INVARIANT OldOrdersAgree"), workers=1, allow_violation=True)
     ctx.extra["model_sensitive_to_exact_spelling_tables"] = (r.violation == "OldOrdersAgree")
     n = len(roundtrip.ITEMS)
@@ -41,6 +52,10 @@ def run(ctx):
         ev = events[tid]
         if clause.startswith("Harness."):
             raise tlc.MachineryError("non-conformant item generated: %s" % insts[tid])
+        if clause.startswith("Drift."):
+            if len(ctx.drift) < 50:
+                ctx.drift.append({"instance": insts[tid], "text": ev.get("text", "")[:1500]})
+            continue
         diffs = []
         for a, b in zip(ev["secs"], ev["obs"]):
             for x, y in zip(a["items"], b["items"]):
